@@ -360,6 +360,10 @@ std::string sqf::fileio::impl_default::read_file(sqf::runtime::fileio::pathinfo 
             }
             auto prefix = prefix_optional.value();
             auto pbo_path = info.virtual_;
+            if (!pbo_path.empty() && pbo_path[0] == '/')
+            { // absolute virtual path ("\\prefix\\file"): the prefix attribute has no leading separator
+                pbo_path = pbo_path.substr(1);
+            }
 
             if (pbo_path.length() > prefix.length() + 1)
             {
